@@ -48,66 +48,96 @@ def run(ctx):
     # ---- a
     writes = [m for m in f.walk() if m.i in cfg.pos and any(root_of_lvalue(e) == img for e in written_lvalues(m)) and not (m.is_call() and (m.callee or "").endswith("threshold_upper_lower"))]
     writes = [m for m in writes if not (m.k == "CXXMemberCallExpr" and (m.callee or "").split("::")[-1] in ("begin_all", "end_all", "get_empty_copy"))]
-    clamps = [c for c in f.calls() if (c.callee or "").endswith("threshold_upper_lower") and key(c.call_args()[0], True).startswith(f.params[0]["n"] + ".begin_all")]
+    alg = Algebra(f, names=False)
+    inl = {d: alg.defs.single_def(d) for d in alg.defs.decl}
+    clamps = [c for c in f.calls() if (c.callee or "").endswith("threshold_upper_lower") and key(c.call_args()[0]) == img + ".begin_all()"]
     ok = False
     det = "no clamp of the current image"
     if clamps:
         c = clamps[-1]
         a = c.call_args()
-        alg = Algebra(f, names=True)
         lo = alg.expr(a[2])
-        hi_key = key(a[3], True, {d: alg.defs.single_def(d) for d in alg.defs.decl})
-        whole = key(a[0], True) == f.params[0]["n"] + ".begin_all()" and key(a[1], True) == f.params[0]["n"] + ".end_all()"
+        hi_key = key(a[3], False, inl)
+        whole = key(a[0]) == img + ".begin_all()" and key(a[1]) == img + ".end_all()"
         w = cfg.must_pass_before_exit(writes, lambda x: x.i == c.i)
         ok = whole and lo == 0 and "this.upper_bound" in hi_key and w is None
         det = "threshold_upper_lower(image.begin_all(), image.end_all(), %s, %s) follows all %d modifications of the image" % (lo, hi_key, len(writes)) if ok else "clamp: whole=%s lower=%s upper=%s, a modification can reach the exit without it=%s" % (whole, lo, hi_key, w is not None)
     ctx.ob("C08.a-iterate-clamped", f.qn, "clamp-to-[0,upper_bound]", ok, f.where(), det)
-    # ---- b
+    # ---- b   (objects are identified by what is done with them, never by their names)
     tr = [c for c in f.calls() if c.callee == "std::transform"]
-    divs = [c for c in tr if key(c.call_args()[-1], True).replace(" ", "") in ("(/boost::lambda::_1boost::lambda::_2)",) or re.fullmatch(r"\(/ .*_1.* .*_2.*\)", key(c.call_args()[-1], True))]
+    P1, P2 = alg.sym("boost::lambda::(anon)::_1"), alg.sym("boost::lambda::(anon)::_2")
+
+    def lam(c):
+        try:
+            return sympy.simplify(alg.expr(c.call_args()[-1]))
+        except Exception:
+            return None
+
+    def obj(n):
+        """the image an iterator argument X->begin_all() ranges over"""
+        k = key(n)
+        return k[: -len(".begin_all()")] if k.endswith(".begin_all()") else k
+
+    divs = [c for c in tr if lam(c) is not None and sympy.simplify(lam(c) - P1 / P2) == 0]
     thr = [c for c in f.calls() if (c.callee or "").endswith("threshold_min_to_small_positive_value")]
-    store = [m for m in f.walk() if m.k in ("BinaryOperator", "CXXOperatorCallExpr") and m.op == "=" and key(m.c[0], True) == "*this.precomputed_denominator_ptr"]
+    STORED = "*this.precomputed_denominator_ptr"
+    WORK = obj(thr[0].call_args()[0]) if thr else None
+    store = [m for m in f.walk() if m.k in ("BinaryOperator", "CXXOperatorCallExpr") and m.op == "=" and key(m.c[0]) == STORED]
     n_ok = 0
     for i, d in enumerate(divs):
-        divisor = key(d.call_args()[2], True)
-        if "work_image_ptr" in divisor:
-            ok = bool(thr) and "work_image_ptr" in key(thr[0].call_args()[0], True) and cfg.dominates(thr[0], d) and thr[0].i != d.i
+        divisor = obj(d.call_args()[2])
+        if WORK is not None and divisor == WORK:
+            ok = cfg.dominates(thr[0], d) and thr[0].i != d.i and obj(thr[0].call_args()[1]).replace(".end_all()", "") == WORK
             det = "divisor work image passed threshold_min_to_small_positive_value first" if ok else "division by an un-thresholded work image"
-        elif "precomputed_denominator_ptr" in divisor:
+        elif divisor == STORED:
             facts = cfg.facts_at(d)
             not_first = any(tv is False and "get_subiteration_num()" in k and "get_start_subiteration_num()" in k and k.startswith("(== ") for k, tv, _r in facts)
-            stored_from_thr = bool(store) and "work_image_ptr" in key(store[0].c[1], True) and bool(thr) and cfg.dominates(thr[0], store[0])
-            st_facts = cfg.facts_at(store[0]) if store else frozenset()
+            stored_from_thr = bool(store) and WORK is not None and key(store[0].c[1].strip()) == WORK and bool(thr) and cfg.dominates(thr[0], store[0])
             ok = not_first and stored_from_thr
             det = "stored denominator is used only after the first executed sub-iteration and was copied from the thresholded image" if ok else "stored denominator used in the first sub-iteration (%s) or not copied from the thresholded image (%s)" % (not not_first, not stored_from_thr)
         else:
-            ok, det = False, "division by %s, which is neither the thresholded work image nor the stored denominator" % divisor
+            ok, det = False, "division by %s, which is neither the thresholded work image nor the stored denominator" % key(d.call_args()[2], True)
         ctx.ob("C08.b-positive-denominator", f.qn, "division@%d" % i, ok, d.where(), det)
         n_ok += 1
     # ---- c
-    rel = [m for m in f.walk() if m.k == "VarDecl" and m.get("n") == "relaxation_parameter" and m.c]
-    ok = False
-    det = "no local relaxation_parameter"
-    if rel:
-        k = key(rel[0].c[0].strip(), True)
-        ok = k == "(/ this.relaxation_parameter (+ 1 (* this.relaxation_gamma (/ this.subiteration_num this.num_subsets))))"
-        det = "relaxation = " + k
-    ctx.ob("C08.c-update-shape", f.qn, "relaxation", ok, f.where(), det)
-    lam = [key(c.call_args()[-1], True) for c in tr if "numerator_ptr" in key(c.call_args()[0], True)]
-    seq = [("mul-N", r"\(\* .*_1.* this\.num_subsets\)"), ("div-D", r"\(/ .*_1.* .*_2.*\)"), ("mul-relax", r"\(\* \(\* .*_1.* relaxation_parameter\) alpha\)|\(\* .*_1.* relaxation_parameter\)")]
-    kinds = []
-    for l in lam:
-        for nm, pat in seq:
-            if re.fullmatch(pat, l):
-                kinds.append(nm)
-    # order along any path: N-scaling, then division (either branch), then relaxation
-    compact = [k for i, k in enumerate(kinds) if i == 0 or kinds[i - 1] != k]
-    ok = compact == ["mul-N", "div-D", "mul-relax"]
-    add = [m for m in f.walk() if m.k in ("CompoundAssignOperator", "CXXOperatorCallExpr") and m.op == "+=" and key(m.c[0], True) == f.params[0]["n"] and "numerator_ptr" in key(m.c[1], True)]
     sub = [c for c in f.calls() if (c.callee or "").endswith("::compute_sub_gradient")]
-    numtr = [c for c in tr if "numerator_ptr" in key(c.call_args()[0], True)]
-    divids = {c.i for c in numtr if re.fullmatch(seq[1][1], key(c.call_args()[-1], True))}
-    straight = [c for c in numtr if c.i not in divids]
-    ok = ok and len(add) == 1 and len(sub) == 1 and all(cfg.dominates(c, add[0]) for c in straight) and cfg.must_pass_from_entry(add, lambda x: x.i in divids) is None and cfg.dominates(sub[0], numtr[0])
+    NUM = key(sub[0].call_args()[0]) if len(sub) == 1 else None
+    numtr = [c for c in tr if NUM is not None and obj(c.call_args()[0]) == NUM and obj(c.call_args()[-2]) == NUM]
+    Nn, al, ga, it = (alg.sym(x) for x in ("this.num_subsets", "this.relaxation_parameter", "this.relaxation_gamma", "this.subiteration_num"))
+    relax = al / (1 + ga * (it / Nn))
+    kinds = []
+    relax_seen = None
+    for c in numtr:
+        e = lam(c)
+        if e is None:
+            kinds.append((c, "?"))
+        elif sympy.simplify(e - P1 * Nn) == 0:
+            kinds.append((c, "mul-N"))
+        elif sympy.simplify(e - P1 / P2) == 0:
+            kinds.append((c, "div-D"))
+        elif sympy.simplify(sympy.diff(e, P1, 2)) == 0 and sympy.simplify(e.subs(P1, 0)) == 0 and not e.has(P2):
+            kinds.append((c, "mul-relax"))
+            relax_seen = sympy.simplify(e / P1)
+        else:
+            kinds.append((c, "other:%s" % e))
+    ok = relax_seen is not None and sympy.simplify(relax_seen - relax) == 0
+    # n = subiteration_num / num_subsets is the full-iteration number: an integer division (the algebra above is over the reals)
+    itdiv = [m for m in f.walk() if m.k == "BinaryOperator" and m.op == "/" and key(m.c[0].strip(), False, inl) == "this.subiteration_num" and key(m.c[1].strip(), False, inl) == "this.num_subsets"]
+    if ok and not (itdiv and all(m.type == "int" for m in itdiv)):
+        ok = False
+        relax_seen = "%s with a non-integer iteration number" % relax_seen
+    ctx.ob("C08.c-update-shape", f.qn, "relaxation", ok, f.where(), "relaxation = %s" % str(relax_seen).replace("this.", ""))
+    # order along any path: N-scaling, then division (either branch), then relaxation
+    compact = [k for i, (_c, k) in enumerate(kinds) if i == 0 or kinds[i - 1][1] != k]
+    ok = compact == ["mul-N", "div-D", "mul-relax"]
+    add = [m for m in f.walk() if m.k in ("CompoundAssignOperator", "CXXOperatorCallExpr") and m.op == "+=" and key(m.c[0]) == img and NUM is not None and key(m.c[1].strip()) == NUM]
+    divids = {c.i for c, k in kinds if k == "div-D"}
+    straight = [c for c, k in kinds if k != "div-D"]
+    ok = ok and len(add) == 1 and len(sub) == 1 and all(cfg.dominates(c, add[0]) for c in straight) and cfg.must_pass_from_entry(add, lambda x: x.i in divids) is None and bool(numtr) and cfg.dominates(sub[0], numtr[0])
+    if ok:
+        # the three steps happen in this order on every path: N-scaling dominates each division, each division precedes the relaxation
+        mulN = [c for c, k in kinds if k == "mul-N"]
+        rel_ = [c for c, k in kinds if k == "mul-relax"]
+        ok = all(cfg.dominates(mulN[0], c) for c, k in kinds if k == "div-D") and cfg.must_pass_from_entry(rel_, lambda x: x.i in divids) is None
     ctx.ob("C08.c-update-shape", f.qn, "numerator-pipeline", ok, f.where(), "sub-gradient -> *num_subsets -> /D -> *relaxation -> image += numerator" if ok else "update pipeline is %s" % compact)
     ctx.require_count("C08.b-positive-denominator", 2)
